@@ -4,6 +4,9 @@ cd "$(dirname "$0")/.." || exit 2
 for d in seeded/*/; do
   id=$(basename "$d")
   [ -f "$d/meta.json" ] || continue
+  if python3 -c "import json,sys; sys.exit(0 if not json.load(open('$d/meta.json'))['checks'] else 1)"; then
+    echo "$id NOT-CLAIMED (see meta.json: outside the quantified input language)"; continue
+  fi
   out=$(tools/run_seeded.sh "$id" 2>&1)
   n=$(echo "$out" | grep -c "^VIOLATION")
   h=$(echo "$out" | grep -c "^HARNESS")
